@@ -65,15 +65,22 @@ def run(coro: Coroutine[Any, Any, Any], debug: bool = False, horizon: float | No
     loop = VirtualTimeLoop(horizon)
     armed = cpu_limit is not None and threading.current_thread() is threading.main_thread()
     old_handler = None
+    fired = [0]
     if armed:
         def on_timer(signum: int, frame: Any) -> None:
+            fired[0] += 1
             raise Spinning()
 
         old_handler = signal.signal(signal.SIGVTALRM, on_timer)
-        signal.setitimer(signal.ITIMER_VIRTUAL, cpu_limit)
+        # repeating: code that catches Exception around the spinning operation (the code under test, or a case that records the
+        # outcome of each step) swallows the first one and would spin on unguarded; the verdict stands in any case (below)
+        signal.setitimer(signal.ITIMER_VIRTUAL, cpu_limit, 0.5)
     try:
         asyncio.set_event_loop(loop)
-        return loop.run_until_complete(coro)
+        res = loop.run_until_complete(coro)
+        if fired[0]:
+            raise Spinning()
+        return res
     finally:
         if armed:
             signal.setitimer(signal.ITIMER_VIRTUAL, 0)
